@@ -278,11 +278,12 @@ def replay(ctx, obj):
     kind = r.get("kind")
     if kind in ("cut", "crash", "run"):
         conf, recs = gc.case_from_json(r["case"])
-        n0 = len(ctx.violations)
+        found = []
+        ctx.violation = lambda what, replay_obj, **kw: found.append(what)   # replaying writes no new replay files
         check_run(ctx, conf, recs, "replay")
-        for v in ctx.violations[n0:]:
-            print(v[0])
-        return len(ctx.violations) == n0
+        for v in found:
+            print(v)
+        return not found
     if kind == "shipped":
         with open(os.path.join(DATA, r["file"]), "rb") as f:
             text = f.read().decode("latin-1")
